@@ -14,7 +14,7 @@ enum { K_WRITE, K_ALLOC_COMMIT, K_READ, K_PEEK, K_RECLAIM, K_SPACE, K_DRAIN, K_N
 static const char *const op_names[K_N] = { "write", "alloc_commit", "read", "peek", "reclaim", "space", "drain" };
 
 static int c_wrap_payload, c_wrap_header, c_refused, c_refused_tight, c_enobufs, c_len_unaligned, c_empty_read,
-	c_exact_fit, c_overwrote, c_over_s, c_marker_payload, c_peek_ok;
+	c_exact_fit, c_overwrote, c_over_s, c_marker_payload, c_peek_ok, c_reclaim_empty, c_reclaim_unpeeked;
 
 static void init(const char *)
 {
@@ -30,6 +30,8 @@ static void init(const char *)
 	c_over_s = counter_id("probe", "len_above_S");
 	c_marker_payload = counter_id("probe", "payload_made_of_marker_words");
 	c_peek_ok = counter_id("probe", "peek_reclaim_pair");
+	c_reclaim_empty = counter_id("probe", "reclaim_on_empty_ring");
+	c_reclaim_unpeeked = counter_id("probe", "reclaim_without_peek");
 }
 
 static uint32_t pick_len(Rng &r, uint32_t S, uint64_t used_est)
@@ -103,6 +105,12 @@ static void gen(const char *prop, RunSpec &spec)
 				peeked = false;
 			}
 		} else if (k < w_write + w_alloc + w_read + w_peek + w_space) {
+			if (r.chance(1, 3)) {
+				// a bare reclaim: discards the oldest chunk, or does nothing on an empty ring
+				p.add(0, K_RECLAIM);
+				if (!est.empty()) { used_est -= est.front() + 16; est.pop_front(); }
+				peeked = false;
+			} else
 			p.add(0, K_SPACE);
 		} else {
 			p.add(0, K_DRAIN);
@@ -288,7 +296,17 @@ static void run(const char *prop, const RunSpec &spec)
 			}
 			break; }
 		case K_RECLAIM:
-			if (overwrite || !peek_out || M.empty()) break;
+			if (overwrite) break;
+			if (M.empty()) {
+				// nothing to reclaim: the call must leave the (empty) ring alone, whatever stale bytes lie at read_pt
+				ssize_t u0 = qb_rb_space_used(rb);
+				qb_rb_chunk_reclaim(rb);
+				ssize_t u1 = qb_rb_space_used(rb);
+				count(c_reclaim_empty);
+				if (u0 != u1) fail("reclaim-on-empty-ring-changed-it", "qb_rb_chunk_reclaim", "op %zu: qb_rb_chunk_reclaim on an empty ring changed space_used from %zd to %zd", i, u0, u1);
+				break;
+			}
+			if (!peek_out) count(c_reclaim_unpeeked);     // reclaim without a peek discards the oldest chunk
 			qb_rb_chunk_reclaim(rb);
 			used -= (uint64_t)M.front().len + 16;
 			M.pop_front(); peek_out = false; nreads++;
